@@ -69,6 +69,11 @@ def outermost_contract(x: Any, **kw: Any) -> Optional[str]:
         if st.error is not None and not isinstance(st.error, BaseExceptionGroup):
             if type(ex) is not type(st.error) or str(ex) != str(st.error):
                 return f"extract_outermost raised {ex!r}, extract recorded {st.error!r}"
+        if isinstance(st.error, BaseExceptionGroup):
+            # several errors were recorded: what is re-raised must be those errors, not one of them
+            members = lambda g: sorted((type(m).__name__, str(m)) for m in g.exceptions)
+            if not isinstance(ex, BaseExceptionGroup) or members(ex) != members(st.error):
+                return f"extract_outermost raised {ex!r}, extract recorded the group {st.error!r} of {members(st.error)}"
         return None
     if not st.frames:
         return f"extract_outermost returned {fo} although extract has no frames"
@@ -99,6 +104,9 @@ TREES = [
     ["I", "boom", []],
     ["I", "tuple", [["I", "boom", []]]],
     ["I", "iter", [["I", "single", [["I", "boom", []]]]]],
+    # two members fail and nothing yields a frame: both errors are recorded
+    ["I", "tuple", [["I", "boom", []], ["I", "boom", []]]],
+    ["I", "list", [["I", "boom", []], ["I", "empty", []], ["I", "tuple", [["I", "boom", []]]]]],
 ]
 BEHS = [{}, {0: ["ins", [["G", 3]]]}, {1: ["rep1", ["G", 4]]}, {0: ["prune"]}, {0: ["raise"]}]
 
